@@ -11,6 +11,7 @@
 -/
 import DiplomatModel.AbiGen
 import DiplomatModel.Props.C05
+import DiplomatModel.Lemmas.Wire
 namespace DiplomatModel.Props.C01
 open DiplomatModel.Lower DiplomatModel.AbiGen DiplomatModel.Generated.AbiTables DiplomatModel.Props.C05
 open DiplomatModel.Abi
@@ -671,5 +672,53 @@ example : rAbi envEx (retTy (some (.res (.opt (.prim .i16) .dip) (.named "Zs") .
 example : methodAgrees envEx "p_" "Op"
     ⟨"m", some ⟨true, .named "a", false⟩, [("x", .strRef (some .anon) .utf8 .std), ("cb", .fn [.prim .u8] .unit), ("w", .write)],
       some (.res .unit (.named "En") .std)⟩ = true := by decide
+
+/-! ### bytes: what one side stores the other side loads (`Wire.lean`) -/
+
+open DiplomatModel.Wire in
+/-- **Values cross bit for bit.** For every wire type — scalars, structs nested to any depth, `Option` / `Result`
+    with payload or unit arms — and every value of that type: storing it at any address by the C layout rules and
+    loading it from there by the same rules (the two sides agree on the description: theorems above) gives back
+    exactly the value stored, whatever the memory held before. In particular the arm of a result that is loaded is
+    the arm that was stored, and every scalar comes back with the same bytes. -/
+theorem value_roundtrip (t : WTy) (v : WVal) (base : Nat) (m : Memory.Mem) (hwf : t.WF) (hv : WellTyped t v) :
+    decode t base (encode t v base m) = v :=
+  decode_encode t v base m hwf hv
+
+open DiplomatModel.Wire in
+/-- … and storing a value touches nothing outside its own `size` bytes (a by-value argument cannot clobber its
+    neighbours) -/
+theorem value_store_is_local (t : WTy) (v : WVal) (base : Nat) (m : Memory.Mem) (a : Nat) (hwf : t.WF)
+    (hv : WellTyped t v) (ha : a < base ∨ base + size t ≤ a) : encode t v base m a = m a :=
+  encode_outside t v base m a hwf hv ha
+
+open DiplomatModel.Wire in
+/-- **Which arm was taken survives the crossing.** -/
+theorem result_arm_roundtrip (ok err : WTy) (v : WVal) (base : Nat) (m : Memory.Mem) (hwf : (WTy.result ok err).WF) :
+    (WellTyped ok v → decode (.result ok err) base (encode (.result ok err) (.ok v) base m) = .ok v)
+    ∧ (WellTyped err v → decode (.result ok err) base (encode (.result ok err) (.err v) base m) = .err v) :=
+  ⟨fun h => decode_encode _ _ base m hwf (by simpa [WellTyped] using h),
+   fun h => decode_encode _ _ base m hwf (by simpa [WellTyped] using h)⟩
+
+open DiplomatModel.Wire in
+/-- the round trip applies to the wire type of every parameter, field and return type of a bridge (layout tied to
+    gcc's `sizeof` / `offsetof` numbers by the harness, `wire-layout`) -/
+theorem bridge_type_roundtrip (env : Env) (fuel : Nat) (t : TyName) (w : WTy) (v : WVal) (base : Nat) (m : Memory.Mem)
+    (h : wireOf env fuel t = some w) (hv : WellTyped w v) : decode w base (encode w v base m) = v :=
+  decode_encode w v base m (wireOf_wf env fuel t w h) hv
+
+open DiplomatModel.Wire in
+/-- non-vacuity: `struct { a: u8, r: Result<u32, ()>, p: u64 }` has size 24, `r` at 4 with its flag at 8, `p` at 16,
+    and a value of it exists -/
+example : wireOf [("St", .struct false [("a", .prim .u8), ("o", .opt (.prim .u32) .dip), ("p", .prim .u64)])] 3 (.named "St")
+    = some (.struct [.scalar 1, .result (.scalar 4) .unit, .scalar 8]) := by rfl
+open DiplomatModel.Wire in
+example : size (.struct [.scalar 1, .result (.scalar 4) .unit, .scalar 8]) = 24
+    ∧ offsets [.scalar 1, .result (.scalar 4) .unit, .scalar 8] = [0, 4, 16]
+    ∧ flagOffset (.scalar 4) .unit = 4 := by decide
+open DiplomatModel.Wire in
+example : WellTyped (.struct [.scalar 1, .result (.scalar 4) .unit, .scalar 8])
+    (.struct [.scalar [7], .ok (.scalar [1, 2, 3, 4]), .scalar [9, 9, 9, 9, 9, 9, 9, 9]]) := by
+  simp [WellTyped, WellTypedList]
 
 end DiplomatModel.Props.C01
